@@ -31,6 +31,15 @@ def hashseed_for(base, group):
     return str((base * 7919 + group * 104729 + 12345) % 4294967295)
 
 
+def group_env(g, ngroups):
+    """environment configuration of a worker group: the last group runs with the library's documented environment
+    switches set explicitly to their default values (they are read at import time, so only a fresh interpreter sees
+    them); behaviour must not depend on whether they are set"""
+    if ngroups > 1 and g == ngroups - 1:
+        return {"EPSILON": "0.0001", "NUMERIC_PRECISION": "4"}
+    return {}
+
+
 def repo_head():
     repo = os.environ.get("VERIF_REPO", "/repo")
     try:
@@ -82,6 +91,7 @@ def cmd_group(a):
         r["shrink_execs"] = used
         r["shrink_s"] = round(time.time() - t0, 2)
         r["pythonhashseed"] = os.environ.get("PYTHONHASHSEED")
+        r["env"] = {k: os.environ[k] for k in ("EPSILON", "NUMERIC_PRECISION") if k in os.environ}
         r["count_in_group"] = agg["probes"].get("violations:" + v["kind"], 1)
         shrunk.append(r)
     agg["shrunk"] = shrunk
@@ -134,6 +144,8 @@ def cmd_check(a):
     for g in range(ngroups):
         env = dict(os.environ)
         env["PYTHONHASHSEED"] = hashseed_for(base, g)
+        for k, v in group_env(g, ngroups).items():
+            env[k] = v
         out = f"{tmp}/g{g}.pkl"
         cmd = [sys.executable, os.path.join(VERIF, "run.py"), "_group", a.id, "--tier", tier, "--group", str(g),
                "--ngroups", str(ngroups), "--workers", str(wpg), "--base", str(base), "--runs", str(runs),
@@ -181,7 +193,8 @@ def cmd_check(a):
         d = os.path.join(VERIF, "replays", sub)
         os.makedirs(d, exist_ok=True)
         path = os.path.join(d, f"{prop.ID}-{v['seed']}.json")
-        rep = {"property": prop.ID, "seed": v["seed"], "pythonhashseed": v["pythonhashseed"], "tier": tier,
+        rep = {"property": prop.ID, "seed": v["seed"], "pythonhashseed": v["pythonhashseed"], "env": v.get("env") or {},
+               "tier": tier,
                "streams": v["streams"],
                "violation": {"kind": v["kind"], "site": v.get("site"), "detail": v.get("detail"),
                              "features": v.get("features")},
@@ -229,6 +242,7 @@ def cmd_check(a):
         "probes": dict(agg["probes"]),
         "profiles": dict(agg["profiles"]),
         "pythonhashseeds": hashseeds,
+        "group_environments": [group_env(g, ngroups) for g in range(ngroups)],
         "workers": workers,
         "real_vs_stub": prop.REAL_VS_STUB,
         "repo_head": repo_head(), "repo_dirty": repo_dirty(),
@@ -274,9 +288,13 @@ def cmd_replay(a):
     with open(a.file) as f:
         rep = json.load(f)
     want = rep.get("pythonhashseed")
-    if want is not None and os.environ.get("PYTHONHASHSEED") != str(want):
-        env = dict(os.environ)
-        env["PYTHONHASHSEED"] = str(want)
+    want_env = rep.get("env") or {}
+    have_env = {k: os.environ[k] for k in ("EPSILON", "NUMERIC_PRECISION") if k in os.environ}
+    if (want is not None and os.environ.get("PYTHONHASHSEED") != str(want)) or have_env != want_env:
+        env = {k: v for k, v in os.environ.items() if k not in ("EPSILON", "NUMERIC_PRECISION")}
+        env.update(want_env)
+        if want is not None:
+            env["PYTHONHASHSEED"] = str(want)
         os.execve(sys.executable, [sys.executable] + sys.argv, env)
     from sim import engine, fs
     engine.setup_process()
